@@ -61,6 +61,11 @@ pub struct RespCase {
     /// the constructor's headers are handed over through the `additional_headers` channel
     #[serde(default)]
     pub plan: u8,
+    /// how the writer given to raw_print behaves: 0 takes everything; 1 / 2 / 3 take at most
+    /// 1 / 7 / 1000 bytes per call; 4 and 5 also report `Interrupted` on every 3rd / 2nd call
+    /// (taking at most 13 bytes otherwise)
+    #[serde(default)]
+    pub wmode: u8,
 }
 
 pub fn body_bytes(seed: u8, len: usize) -> Vec<u8> {
@@ -698,6 +703,7 @@ pub fn c04_strategy(max_len: usize) -> BoxedStrategy<RespCase> {
             declared,
             with_data,
             plan,
+            wmode: if body_seed % 3 == 0 { (body_seed / 3) % 6 } else { 0 },
             threshold,
             version,
             head,
@@ -727,6 +733,7 @@ pub fn c05_strategy() -> BoxedStrategy<RespCase> {
     })
     .prop_map(|((len, status, body_seed, declared, plan), (threshold, version, head, te), headers, upgrade)| RespCase {
         plan,
+        wmode: 0,
         ctor: Ctor::New,
         status,
         headers,
@@ -772,6 +779,7 @@ pub fn c05_product() -> Vec<RespCase> {
                                 out.push(RespCase {
                                     // the builder orders rotate through the product
                                     plan: (out.len() % 61) as u8,
+                                    wmode: 0,
                                     ctor: Ctor::New,
                                     status,
                                     headers: vec![],
@@ -832,6 +840,7 @@ pub fn c19_strategy() -> BoxedStrategy<RespCase> {
             .collect();
         RespCase {
             plan,
+            wmode: 0,
             ctor,
             status,
             headers,
